@@ -12,10 +12,10 @@ PLAN = {
     "C08": [("B", 4000, 400000, {})],
     "C09": [("B", 4000, 400000, {})],
     "C10": [("B", 4000, 400000, {})],
-    "C11": [("A", 30000, 2500000, {})],
-    "C12": [("BELT", 30000, 3000000, {})],
+    "C11": [("A", 30000, 2500000, {}), ("B", 1500, 150000, {})],
+    "C12": [("BELT", 30000, 3000000, {}), ("B", 1500, 150000, {})],
     "C13": [("BELT", 30000, 3000000, {})],
-    "C14": [("A", 30000, 3000000, {})],
+    "C14": [("A", 30000, 3000000, {}), ("B", 1500, 150000, {})],
     "C15": [("B", 4000, 400000, {})],
     "C16": [("B", 4000, 400000, {})],
     "C17": [("B", 4000, 400000, {})],
